@@ -244,3 +244,74 @@ Proof.
   - unfold eqmask at 1 2 3. change (128 =? 0) with false. cbv iota. change (128 <=? 0) with false. change (Z.land 0 0) with 0. change (0 =? 0) with true.
     cbn [andb]. repeat split; try lia.
 Qed.
+
+(* ---------- conditions ---------- *)
+
+Lemma signed64_small a : 0 <= a < two63 -> signed64 a = a.
+Proof. intros H. unfold signed64. replace (a <? two63) with true by lia. reflexivity. Qed.
+
+Lemma holds_cmp_LT a b : 0 <= a < two63 -> 0 <= b < two63 -> holds (cmp_flags a b signed64) cLT = (a <? b).
+Proof. intros Ha Hb. unfold holds, cmp_flags. cbn [lt]. rewrite !signed64_small by assumption. reflexivity. Qed.
+Lemma holds_cmp_LE a b : 0 <= a < two63 -> 0 <= b < two63 -> holds (cmp_flags a b signed64) cLE = (a <=? b).
+Proof. intros Ha Hb. unfold holds, cmp_flags. cbn [lt zf]. rewrite !signed64_small by assumption. lia. Qed.
+Lemma holds_cmp_A a b sg : holds (cmp_flags a b sg) cA = (b <? a).
+Proof. unfold holds, cmp_flags. cbn [cf zf]. lia. Qed.
+Lemma holds_cmp_AE a b sg : holds (cmp_flags a b sg) cAE = (b <=? a).
+Proof. unfold holds, cmp_flags. cbn [cf]. lia. Qed.
+Lemma holds_cmp_B a b sg : holds (cmp_flags a b sg) cB = (a <? b).
+Proof. reflexivity. Qed.
+Lemma holds_cmp_BE a b sg : holds (cmp_flags a b sg) cBE = (a <=? b).
+Proof. unfold holds, cmp_flags. cbn [cf zf]. lia. Qed.
+Lemma holds_cmp_E a b sg : holds (cmp_flags a b sg) cE = (a =? b).
+Proof. reflexivity. Qed.
+Lemma holds_cmp_NE a b sg : holds (cmp_flags a b sg) cNE = negb (a =? b).
+Proof. reflexivity. Qed.
+
+(* ---------- page-offset test and the mask shifts of the small paths ---------- *)
+
+(* TESTW $0xff0, x is zero exactly when x lies in the first 16 bytes of a 4 KiB page *)
+Lemma land4080 x : 0 <= x -> Z.land 4080 x = 16 * ((x / 16) mod 256).
+Proof.
+  intros Hx. apply Z.bits_inj'. intros k Hk. rewrite Z.land_spec.
+  change 16 with (2 ^ 4) at 1. rewrite (Z.mul_comm (2 ^ 4)).
+  destruct (Z_lt_le_dec k 4) as [Lo|Hi].
+  - rewrite Z.mul_pow2_bits_low by lia.
+    replace (Z.testbit 4080 k) with false; [reflexivity|].
+    assert (k = 0 \/ k = 1 \/ k = 2 \/ k = 3) as [->|[->|[->| ->]]] by lia; reflexivity.
+  - rewrite Z.mul_pow2_bits by lia. change 256 with (2 ^ 8). change 16 with (2 ^ 4).
+    destruct (Z_lt_le_dec (k - 4) 8) as [In|Out].
+    + rewrite Z.mod_pow2_bits_low by lia. rewrite Z.div_pow2_bits by lia. replace (k - 4 + 4) with k by lia.
+      replace (Z.testbit 4080 k) with true; [reflexivity|].
+      assert (k = 4 \/ k = 5 \/ k = 6 \/ k = 7 \/ k = 8 \/ k = 9 \/ k = 10 \/ k = 11) as [->|[->|[->|[->|[->|[->|[->| ->]]]]]]] by lia; reflexivity.
+    + rewrite Z.mod_pow2_bits_high by lia.
+      replace (Z.testbit 4080 k) with false; [reflexivity|].
+      symmetry. apply (Z.bits_above_log2 4080 k); [lia|]. change (Z.log2 4080) with 11. lia.
+Qed.
+
+Lemma testw_page x : 0 <= x -> (Z.land 4080 x mod 65536 =? 0) = (x mod 4096 <? 16).
+Proof. intros Hx. rewrite land4080 by exact Hx. lia. Qed.
+
+(* SHLL len; SHRL 16 on the mask of [16-len junk bytes ++ the len bytes of s] leaves the mask of s *)
+Lemma shift_out_junk (mj ms : Z) (n : nat) :
+  (1 <= n <= 15)%nat -> 0 <= mj < 2 ^ Z.of_nat (16 - n) -> 0 <= ms < 2 ^ Z.of_nat n ->
+  (((mj + 2 ^ Z.of_nat (16 - n) * ms) mod two32) * 2 ^ (Z.of_nat n mod 32) mod two32) mod two32 / 2 ^ (16 mod 32) = ms.
+Proof.
+  intros Hn Hj Hs. set (P := 2 ^ Z.of_nat n) in *. set (Q := 2 ^ Z.of_nat (16 - n)) in *.
+  assert (HPQ : Q * P = 65536).
+  { unfold P, Q. rewrite <- Z.pow_add_r by lia. replace (Z.of_nat (16 - n) + Z.of_nat n) with 16 by lia. reflexivity. }
+  assert (HP : 2 <= P <= 32768).
+  { unfold P. split.
+    - change 2 with (2 ^ 1). apply Z.pow_le_mono_r; lia.
+    - change 32768 with (2 ^ 15). apply Z.pow_le_mono_r; lia. }
+  assert (HQ : 2 <= Q <= 32768).
+  { unfold Q. split.
+    - change 2 with (2 ^ 1). apply Z.pow_le_mono_r; lia.
+    - change 32768 with (2 ^ 15). apply Z.pow_le_mono_r; lia. }
+  replace (Z.of_nat n mod 32) with (Z.of_nat n) by lia. fold P. change (16 mod 32) with 16. change (2 ^ 16) with 65536.
+  assert (Hm : 0 <= mj + Q * ms < 65536) by nia.
+  unfold two32. rewrite (Z.mod_small (mj + Q * ms)) by lia.
+  assert (E : (mj + Q * ms) * P = mj * P + ms * 65536) by (rewrite <- HPQ; ring).
+  assert (Hb : 0 <= mj * P < 65536) by nia.
+  rewrite E. rewrite (Z.mod_small (mj * P + ms * 65536)) by nia. rewrite Z.mod_small by nia.
+  rewrite Z.div_add by lia. rewrite Z.div_small by lia. lia.
+Qed.
